@@ -37,6 +37,21 @@ pub fn check_announcement(
     reference: &[Change],
     outbox: &[(bool, ChangeV1)],
 ) -> VRes<()> {
+    check_announcement_of(w, n, v, reference, reference, outbox)
+}
+
+/// `reference`: the changes the transaction committed; `expected`: what of them an
+/// announcement made *now* can still read (all of them right after the commit; those not
+/// overwritten since, when the announcement was delayed). The chunks must tile
+/// 0..=last_seq of the committed version either way.
+pub fn check_announcement_of(
+    w: &mut World,
+    n: usize,
+    v: u64,
+    reference: &[Change],
+    expected: &[Change],
+    outbox: &[(bool, ChangeV1)],
+) -> VRes<()> {
     w.stats.oracle_checks += 1;
     if reference.is_empty() {
         return vio(
@@ -128,11 +143,11 @@ pub fn check_announcement(
         );
     }
     let all: Vec<&Change> = chunks.iter().flat_map(|c| c.2.iter()).collect();
-    if all.len() != reference.len() || all.iter().zip(reference.iter()).any(|(a, b)| **a != *b) {
+    if all.len() != expected.len() || all.iter().zip(expected.iter()).any(|(a, b)| **a != *b) {
         return vio(
             "C07",
             "announced-changes-differ",
-            json!({"node": n, "version": v, "announced": all.len(), "committed": reference.len()}),
+            json!({"node": n, "version": v, "announced": all.len(), "committed": reference.len(), "still_live": expected.len()}),
         );
     }
     Ok(Ok(()))
